@@ -233,7 +233,9 @@ NextWithParameters == \E a \in {R(0), R(2), <<-1,2>>}, b \in {R(1), R(-3)}, shap
                        [] shape = "missing50" -> << <<51, b>> >> [] shape = "missing51" -> << <<50, a>> >> [] OTHER -> <<>>])
 \* ---- C18: every kind x bound shape of a used variable, either sense, constant-only constraints, non-contiguous ids ---------
 RtBounds == { <<>>, B(Zero, One), B(Zero, Zero), B(R(-3), R(-1)), B(R(0), R(-0)), B(R(-2), R(5)), B(R(1), PInf), B(NInf, R(2)), B(NInf, R(-2)), B(NInf, Zero), B(NInf, PInf),
-              B(Zero, PInf), B(R(2), R(2)), B(<<1,2>>, <<7,2>>) }
+              B(Zero, PInf), B(R(2), R(2)), B(<<1,2>>, <<7,2>>),
+              \* a big-M box: +-1e30 (tokens <<+-1,-30>>) are finite numbers, not the format's "infinity"
+              B(Zero, <<1, -30>>), B(<<-1, -30>>, <<1, -30>>), B(<<-1, -30>>, R(7)) }
 NextMpsRoundtrip ==
   \/ \E k \in {"continuous", "integer", "binary"}, b \in RtBounds, sense \in {"min", "max"}, k2 \in {"continuous", "integer"} :
        (k = "binary" => b \in { <<>>, B(Zero, One), B(Zero, Zero), B(One, One) }) /\
